@@ -599,9 +599,11 @@ def _lint(ctx, prop):
         cp, ncp = lint.rule_CP1(ctx, files)
         nb, nnb = lint.rule_NB1(ctx, files)
         zq, nzq = lint.rule_ZQ1(ctx, files)
+        from .rules import angles
+        ang, nangf, nangc = angles.rule_ANG1(ctx, files)
         prt, nprt = lint.rule_PRT1(ctx, files)
         tw, ntw = lint.rule_TW1(ctx, files)
-        out += [sw, ov, n1, d3, cp, nb, zq, prt, tw]
+        out += [sw, ov, n1, d3, cp, nb, zq, prt, tw, ang]
     return out
 
 
